@@ -79,6 +79,8 @@ def _async_send(ex, recv, args, kwargs, st, frame, node):
 
 
 def install(R, send_stub=True):
+    from pyvc import concrete as _conc
+    _conc.MODEL_CLASSES.update({'TimerHandle': CHandle, 'EventLoop': CLoop})
     R.shape('VClock', {'now': 'real'}, bases=[])
     R.shape('VTimers', {'events': 'list[%s]' % TEV}, bases=[])
     R.shape('VSent', {'events': 'list[tuple[real, DNSOutgoing]]'}, bases=[])
